@@ -152,7 +152,26 @@ fn rotate_main(n: usize, bits: u32) -> BoxedStrategy<Vec<u64>> {
 
 /// lerp / move_towards / clamp_length case: a[N] b[N] s d min max
 pub fn lmc(n: usize, bits: u32) -> BoxedStrategy<Vec<u64>> {
-    prop_oneof![94 => lmc_main(n, bits), 6 => lmc_tiny(n, bits)].boxed()
+    prop_oneof![90 => lmc_main(n, bits), 6 => lmc_tiny(n, bits), 4 => lmc_huge(n, bits)].boxed()
+}
+
+/// the same case layout with operands near the top of the finite range, lanes of either sign (so that b - a and a + b
+/// overflow in some lanes); s inside [0, 1] (extrapolating from there overflows legitimately)
+fn lmc_huge(n: usize, bits: u32) -> BoxedStrategy<Vec<u64>> {
+    let f = fmt(bits);
+    let emax = f.emax as f64;
+    let lane = move || ((emax - 6.0)..(emax - 0.001), any::<bool>()).prop_map(|(e, neg)| 2f64.powf(e) * if neg { -1.0 } else { 1.0 });
+    (proptest::collection::vec(lane(), n), proptest::collection::vec(lane(), n), prop_oneof![1 => Just(0.0f64), 1 => Just(1.0f64), 1 => Just(0.5f64), 3 => 0.0f64..1.0])
+        .prop_map(move |(a, b, s)| {
+            let mut w = words(bits, &a);
+            w.extend(words(bits, &b));
+            w.push(to_word(bits, s));
+            w.push(to_word(bits, 1.0));
+            w.push(to_word(bits, 0.0));
+            w.push(to_word(bits, 1.0));
+            w
+        })
+        .boxed()
 }
 
 /// the same case layout with a first operand whose computed length is exactly zero: the zero vector (either sign of
